@@ -6,6 +6,7 @@ CONSTANTS
   Prods <- TreeProds
   KISet <- KIAll
   EnvWhereSet <- EnvWheres
+  SibSeqSet <- SibCover
   Deviations = {}
   EmitMin = 0
   EmitFrom = 9
